@@ -39,6 +39,8 @@ ASSUMPTIONS = [
     'lu: P is returned as a permutation matrix W with A = W L U (scipy.linalg.lu convention), W constant; lu2/lu_factor: LAPACK pivot indices, row i swapped with row piv[i] in sequence',
     'near-degenerate buckets: A Q = Q diag(lambda), U S V^T = A keep 1e-8; the orthogonality predicates use max(1e-8, 1e-13/gap) because vectors belonging to a gap g carry a relative error eps/g (measured <= 1e-16/g on the unchanged tree)',
     'the matrix polynomial is handed over as a fresh C-contiguous array or (1/3) as a transposed view X.T; after the call it must be bit-identical to what was passed (the equations are statements about the curve the caller holds)',
+    'out= of the class methods (1/4 of the cases; cleared buffer or non-zero garbage): qr, qr_full, cholesky, eigh, eig fill the buffers; returned objects and buffer contents must both satisfy the predicates',
+    'complex coefficient data: only eig handles it on this tree (complex l, Q); qr, qr_full, cholesky, lu, eigh, svd raise UFuncTypeError (float work arrays, formulas written with transposes): documented in notes/C08.md, not asserted',
     'NumPy, SciPy/LAPACK are trusted',
 ]
 
@@ -320,6 +322,61 @@ def eig_cases(draw, cls, tier, Dmax=2, Dmin=1):
     return {'op': 'eig', 'cls': cls, 'A': A}
 
 
+ANGLE = gen.nice_floats(-3.1, 3.1)
+
+
+@st.composite
+def _complex_wc(draw, n, unitary=False):
+    """complex n x n matrix with prescribed singular values: Q1 diag(s e^{i a}) Q2^T e^{i b} ... ; unitary: s = 1"""
+    Q1 = draw(gen.orthogonal(n))
+    Q2 = draw(gen.orthogonal(n))
+    s = np.ones(n) if unitary else draw(gen.spaced_values(n, 0.3, 0.3))
+    ph = np.exp(1j * draw(gen.float_array((n,), ANGLE, sparse=False)))
+    ph2 = np.exp(1j * draw(gen.float_array((n,), ANGLE, sparse=False)))
+    return (Q1 * (s * ph)[None, :]) @ (Q2.T * ph2[None, :])
+
+
+@st.composite
+def _complex_array(draw, shape):
+    re = draw(gen.float_array(shape, gen.coeff_elements(1.0)))
+    im = draw(gen.float_array(shape, gen.coeff_elements(1.0)))
+    return re + 1j * im
+
+
+@st.composite
+def eig_complex_cases(draw, tier):
+    """complex coefficient data (UTPM.eig allocates complex l, Q and works in complex arithmetic):
+    hermitian  = U diag(real lambda) U^H, Hermitian A_1: all eigenvalue coefficients real, eigenvectors complex;
+    real-pencil = V (L0 + t L1) V^-1 with real L0, L1 and complex V: same, non-normal;
+    general    = V diag(complex lambda) V^-1, arbitrary complex A_1.  Eigenvalues pairwise >= 0.3 apart."""
+    D, P = draw(gen.dims(Dmax=2, Pmax=3))
+    n = draw(st.integers(1, 5))
+    variant = draw(st.sampled_from(['hermitian', 'real-pencil', 'general']))
+    A = np.zeros((D, P, n, n), dtype=complex)
+    for p in range(P):
+        lam = np.array(draw(_separated(n)))
+        if variant == 'hermitian':
+            U = draw(_complex_wc(n, unitary=True))
+            A0 = U @ np.diag(lam) @ U.conj().T
+            A[0, p] = 0.5 * (A0 + A0.conj().T)
+            if D > 1:
+                X = draw(_complex_array((n, n)))
+                A[1, p] = 0.5 * (X + X.conj().T)
+        else:
+            V = draw(_complex_wc(n))
+            Vi = np.linalg.inv(V)
+            if variant == 'general':
+                lam = lam + 1j * draw(gen.float_array((n,), gen.interval_union((-2.0, 2.0)), sparse=False))
+                A[0, p] = V @ np.diag(lam) @ Vi
+                if D > 1:
+                    A[1, p] = draw(_complex_array((n, n)))
+            else:
+                A[0, p] = V @ np.diag(lam) @ Vi
+                if D > 1:
+                    A[1, p] = V @ np.diag(draw(gen.float_array((n,), gen.coeff_elements(1.0), sparse=False))) @ Vi
+    return {'op': 'eig', 'cls': 'complex-input', 'variant': variant, 'A': A}
+
+
 # ---------------------------------------------------------------------------
 # properties
 # ---------------------------------------------------------------------------
@@ -329,11 +386,54 @@ def _live(case):
     return R.live_operand(case['A'], True, case.get('lay', 'C'))
 
 
+OUT_UNBOUND = ('lu', 'lu2', 'lu_factor', 'svd')      # signature has out=, body has no branch for it (KF-factor-out-unbound)
+
+
 @st.composite
 def with_layout(draw, strat):
     case = draw(strat)
     case['lay'] = draw(st.sampled_from(['C', 'C', 'T']))
+    # out= of the class methods (1/4 of the cases): cleared buffer or non-zero garbage
+    m = draw(st.sampled_from([None] * 6 + ['zeros', 'garbage']))
+    if m is not None:
+        steered = []
+        if case['op'] in OUT_UNBOUND and KF.is_open('KF-factor-out-unbound'):
+            steered.append('KF-factor-out-unbound')
+            m = None
+        elif case['op'] == 'eigh' and m == 'garbage' and KF.is_open('KF-eigh-out-nonzero'):
+            steered.append('KF-eigh-out-nonzero')
+            m = 'zeros'
+        if m is not None:
+            case['out'] = m
+        if steered:
+            case['steered'] = steered
     return case
+
+
+def _call(case, fglobal, fclass, shapes, stats, dtype=float, declared=(), single=False):
+    """call the factorization (public global function, or the class method when an out= buffer is passed);
+    returns (returned objects, buffers or None)"""
+    for k in case.get('steered', []):
+        stats.exclude(k)
+    X = _live(case)
+    bufs = None
+    if case.get('out'):
+        bufs = tuple(UTPM(R.out_buffer(s, dt, case['out'])) for s, dt in
+                     zip(shapes, dtype if isinstance(dtype, (tuple, list)) else [dtype] * len(shapes)))
+        ret = R.guard_declared(fclass, X, out=(bufs[0] if single else bufs), declared=declared)
+    else:
+        ret = R.guard_declared(fglobal, X, declared=declared)
+    R.assert_unchanged(X, case['A'], case['op'])
+    return ret, bufs
+
+
+def _result_sets(ret, bufs, names):
+    """[(tag, data tuple)]: the returned objects, and the caller's buffers when they are different objects"""
+    ret = ret if isinstance(ret, (tuple, list)) else (ret,)
+    sets = [('', tuple(_utpm(o, nm) for o, nm in zip(ret, names)))]
+    if bufs is not None and any(b is not r for b, r in zip(bufs, ret)):
+        sets.append((' [contents of the out buffers]', tuple(b.data for b in bufs)))
+    return sets
 
 
 def _utpm(z, what):
@@ -376,36 +476,36 @@ def prop_qr(case, stats):
     D, P, M, N = A.shape
     full = case['op'] == 'qr_full'
     K = M if full else min(M, N)
-    X = _live(case)
-    out = guard(algopy.qr_full if full else algopy.qr, X)
-    R.assert_unchanged(X, A, case['op'])
-    Q, Rr = _utpm(out[0], 'Q'), _utpm(out[1], 'R')
-    _shape(Q, (D, P, M, K), 'Q')
-    _shape(Rr, (D, P, K, N), 'R')
+    ret, bufs = _call(case, algopy.qr_full if full else algopy.qr, UTPM.qr_full if full else UTPM.qr,
+                      [(D, P, M, K), (D, P, K, N)], stats)
     low = np.array([[r > c for c in range(N)] for r in range(K)], dtype=bool)
-    for p in range(P):
-        Qp, Rp, Ap = Q[:, p], Rr[:, p], A[:, p]
-        R.eq_check(R.smul(Qp, Rp), Ap, R.term_scale(R.smul_abs(Qp, Rp), Ap), TOL, stats, '%s p=%d: Q R = A' % (case['op'], p))
-        _orth(Qp, stats, '%s p=%d: Q^T Q = I' % (case['op'], p))
-        R.zero_check(Rp, low, R.term_scale(Rp), TOL, stats, '%s p=%d: R upper triangular' % (case['op'], p))
-        q0, r0 = scipy.linalg.qr(Ap[0]) if full else np.linalg.qr(Ap[0])
-        _zeroth(Qp[0], q0, stats, '%s p=%d: Q' % (case['op'], p))
-        _zeroth(Rp[0], r0, stats, '%s p=%d: R' % (case['op'], p))
+    for tag, (Q, Rr) in _result_sets(ret, bufs, ('Q', 'R')):
+        _shape(Q, (D, P, M, K), 'Q' + tag)
+        _shape(Rr, (D, P, K, N), 'R' + tag)
+        for p in range(P):
+            what = '%s p=%d%s' % (case['op'], p, tag)
+            Qp, Rp, Ap = Q[:, p], Rr[:, p], A[:, p]
+            R.eq_check(R.smul(Qp, Rp), Ap, R.term_scale(R.smul_abs(Qp, Rp), Ap), TOL, stats, what + ': Q R = A')
+            _orth(Qp, stats, what + ': Q^T Q = I')
+            R.zero_check(Rp, low, R.term_scale(Rp), TOL, stats, what + ': R upper triangular')
+            q0, r0 = scipy.linalg.qr(Ap[0]) if full else np.linalg.qr(Ap[0])
+            _zeroth(Qp[0], q0, stats, what + ': Q')
+            _zeroth(Rp[0], r0, stats, what + ': R')
 
 
 def prop_cholesky(case, stats):
     A = case['A']
     D, P, n, _ = A.shape
-    X = _live(case)
-    L = _utpm(guard(algopy.cholesky, X), 'L')
-    R.assert_unchanged(X, A, 'cholesky')
-    _shape(L, A.shape, 'L')
+    ret, bufs = _call(case, algopy.cholesky, UTPM.cholesky, [A.shape], stats, single=True)
     up = np.triu(np.ones((n, n), dtype=bool), 1)
-    for p in range(P):
-        Lp, Ap = L[:, p], A[:, p]
-        R.eq_check(R.smul(Lp, R.sT(Lp)), Ap, R.term_scale(R.smul_abs(Lp, R.sT(Lp)), Ap), TOL, stats, 'cholesky p=%d: L L^T = A' % p)
-        R.zero_check(Lp, up, R.term_scale(Lp), TOL, stats, 'cholesky p=%d: L lower triangular' % p)
-        _zeroth(Lp[0], np.linalg.cholesky(Ap[0]), stats, 'cholesky p=%d: L' % p)
+    for tag, (L,) in _result_sets(ret, bufs, ('L',)):
+        _shape(L, A.shape, 'L' + tag)
+        for p in range(P):
+            what = 'cholesky p=%d%s' % (p, tag)
+            Lp, Ap = L[:, p], A[:, p]
+            R.eq_check(R.smul(Lp, R.sT(Lp)), Ap, R.term_scale(R.smul_abs(Lp, R.sT(Lp)), Ap), TOL, stats, what + ': L L^T = A')
+            R.zero_check(Lp, up, R.term_scale(Lp), TOL, stats, what + ': L lower triangular')
+            _zeroth(Lp[0], np.linalg.cholesky(Ap[0]), stats, what + ': L')
 
 
 def _check_LU(L, U, PA, stats, what):
@@ -423,24 +523,23 @@ def _check_LU(L, U, PA, stats, what):
 def prop_lu(case, stats):
     A = case['A']
     D, P, n, _ = A.shape
-    X = _live(case)
-    out = guard(algopy.lu, X)
-    R.assert_unchanged(X, A, 'lu')
-    W, L, U = _utpm(out[0], 'W'), _utpm(out[1], 'L'), _utpm(out[2], 'U')
-    for X, nm in ((W, 'W'), (L, 'L'), (U, 'U')):
-        _shape(X, A.shape, nm)
-    for p in range(P):
-        w0 = W[0, p]
-        if np.any(W[1:, p] != 0):
-            raise Violation('lu p=%d: permutation has non-zero higher coefficients' % p)
-        if not (np.all((w0 == 0) | (w0 == 1)) and np.all(w0.sum(axis=0) == 1) and np.all(w0.sum(axis=1) == 1)):
-            raise Violation('lu p=%d: W_0 is not a permutation matrix' % p)
-        PA = np.array([np.dot(w0.T, A[d, p]) for d in range(D)])      # exact: row selection
-        _check_LU(L[:, p], U[:, p], PA, stats, 'lu p=%d' % p)
-        p0, l0, u0 = scipy.linalg.lu(A[0, p])
-        _zeroth(w0, p0, stats, 'lu p=%d: P' % p)
-        _zeroth(L[0, p], l0, stats, 'lu p=%d: L' % p)
-        _zeroth(U[0, p], u0, stats, 'lu p=%d: U' % p)
+    ret, bufs = _call(case, algopy.lu, UTPM.lu, [A.shape] * 3, stats)
+    for tag, (W, L, U) in _result_sets(ret, bufs, ('W', 'L', 'U')):
+        for X, nm in ((W, 'W'), (L, 'L'), (U, 'U')):
+            _shape(X, A.shape, nm + tag)
+        for p in range(P):
+            what = 'lu p=%d%s' % (p, tag)
+            w0 = W[0, p]
+            if np.any(W[1:, p] != 0):
+                raise Violation(what + ': permutation has non-zero higher coefficients')
+            if not (np.all((w0 == 0) | (w0 == 1)) and np.all(w0.sum(axis=0) == 1) and np.all(w0.sum(axis=1) == 1)):
+                raise Violation(what + ': W_0 is not a permutation matrix')
+            PA = np.array([np.dot(w0.T, A[d, p]) for d in range(D)])      # exact: row selection
+            _check_LU(L[:, p], U[:, p], PA, stats, what)
+            p0, l0, u0 = scipy.linalg.lu(A[0, p])
+            _zeroth(w0, p0, stats, what + ': P')
+            _zeroth(L[0, p], l0, stats, what + ': L')
+            _zeroth(U[0, p], u0, stats, what + ': U')
 
 
 def _apply_pivots(Ap, piv):
@@ -464,104 +563,102 @@ def prop_lu2(case, stats):
     A = case['A']
     D, P, n, _ = A.shape
     if case['op'] == 'lu2':
-        X = _live(case)
-        out = guard(UTPM.lu2, X)
-        R.assert_unchanged(X, A, 'lu2')
-        PIV, L, U = _utpm(out[0], 'PIV'), _utpm(out[1], 'L'), _utpm(out[2], 'U')
+        ret, bufs = _call(case, UTPM.lu2, UTPM.lu2, [(D, P, n), A.shape, A.shape], stats, dtype=[int, float, float])
+        names = ('PIV', 'L', 'U')
     else:
-        X = _live(case)
-        out = guard(UTPM.lu_factor, X)
-        R.assert_unchanged(X, A, 'lu_factor')
-        LU, PIV = _utpm(out[0], 'LU'), _utpm(out[1], 'PIV')
-        _shape(LU, A.shape, 'LU')
-        L = np.tril(LU, -1)
-        L[0] += np.eye(n)
-        U = np.triu(LU, 0)
-    _shape(PIV, (D, P, n), 'PIV')
-    _shape(L, A.shape, 'L')
-    _shape(U, A.shape, 'U')
-    for p in range(P):
-        what = '%s p=%d' % (case['op'], p)
-        if np.any(PIV[1:, p] != 0):
-            raise Violation(what + ': pivots have non-zero higher coefficients')
-        piv = _pivots(PIV[0, p], n, what)
-        _check_LU(L[:, p], U[:, p], _apply_pivots(A[:, p], piv), stats, what)
-        lu0, piv0 = scipy.linalg.lu_factor(A[0, p])
-        _zeroth(piv, piv0, stats, what + ': piv')
-        _zeroth(np.tril(L[0, p], -1) + U[0, p], lu0, stats, what + ': LU')
+        ret, bufs = _call(case, UTPM.lu_factor, UTPM.lu_factor, [A.shape, (D, P, n)], stats)
+        names = ('LU', 'PIV')
+    for tag, datas in _result_sets(ret, bufs, names):
+        if case['op'] == 'lu2':
+            PIV, L, U = datas
+        else:
+            LU, PIV = datas
+            _shape(LU, A.shape, 'LU' + tag)
+            L = np.tril(LU, -1)
+            L[0] += np.eye(n)
+            U = np.triu(LU, 0)
+        _shape(PIV, (D, P, n), 'PIV' + tag)
+        _shape(L, A.shape, 'L' + tag)
+        _shape(U, A.shape, 'U' + tag)
+        for p in range(P):
+            what = '%s p=%d%s' % (case['op'], p, tag)
+            if np.any(PIV[1:, p] != 0):
+                raise Violation(what + ': pivots have non-zero higher coefficients')
+            piv = _pivots(PIV[0, p], n, what)
+            _check_LU(L[:, p], U[:, p], _apply_pivots(A[:, p], piv), stats, what)
+            lu0, piv0 = scipy.linalg.lu_factor(A[0, p])
+            _zeroth(piv, piv0, stats, what + ': piv')
+            _zeroth(np.tril(L[0, p], -1) + U[0, p], lu0, stats, what + ': LU')
 
 
 def prop_eigh(case, stats):
     A = case['A']
     D, P, n, _ = A.shape
-    X = _live(case)
-    out = guard(algopy.eigh, X)
-    R.assert_unchanged(X, A, 'eigh')
-    lam, Q = _utpm(out[0], 'lambda'), _utpm(out[1], 'Q')
-    _shape(lam, (D, P, n), 'lambda')
-    _shape(Q, (D, P, n, n), 'Q')
-    for p in range(P):
-        lp, Qp, Ap = lam[:, p], Q[:, p], A[:, p]
-        Lp = R.sdiag(lp)
-        R.eq_check(R.smul(Ap, Qp), R.smul(Qp, Lp), R.term_scale(R.smul_abs(Ap, Qp), R.smul_abs(Qp, Lp)), TOL, stats,
-                   'eigh p=%d: A Q = Q diag(lambda)' % p)
-        _orth(Qp, stats, 'eigh p=%d: Q^T Q = I' % p, _orth_tol(case))
-        w0, q0 = np.linalg.eigh(Ap[0])
-        sc = max(1.0, float(np.abs(w0).max()))
-        if np.any(np.diff(lp[0]) < -TOL0 * sc):
-            raise Violation('eigh p=%d: lambda_0 not ascending: %r' % (p, lp[0].tolist()))
-        _zeroth(lp[0], w0, stats, 'eigh p=%d: lambda' % p)
-        if n == 1 or np.min(np.diff(w0)) > 1e-3:
-            _zeroth(Qp[0], q0, stats, 'eigh p=%d: Q' % p)
+    ret, bufs = _call(case, algopy.eigh, UTPM.eigh, [(D, P, n), (D, P, n, n)], stats)
+    for tag, (lam, Q) in _result_sets(ret, bufs, ('lambda', 'Q')):
+        _shape(lam, (D, P, n), 'lambda' + tag)
+        _shape(Q, (D, P, n, n), 'Q' + tag)
+        for p in range(P):
+            what = 'eigh p=%d%s' % (p, tag)
+            lp, Qp, Ap = lam[:, p], Q[:, p], A[:, p]
+            Lp = R.sdiag(lp)
+            R.eq_check(R.smul(Ap, Qp), R.smul(Qp, Lp), R.term_scale(R.smul_abs(Ap, Qp), R.smul_abs(Qp, Lp)), TOL, stats,
+                       what + ': A Q = Q diag(lambda)')
+            _orth(Qp, stats, what + ': Q^T Q = I', _orth_tol(case))
+            w0, q0 = np.linalg.eigh(Ap[0])
+            sc = max(1.0, float(np.abs(w0).max()))
+            if np.any(np.diff(lp[0]) < -TOL0 * sc):
+                raise Violation('%s: lambda_0 not ascending: %r' % (what, lp[0].tolist()))
+            _zeroth(lp[0], w0, stats, what + ': lambda')
+            if n == 1 or np.min(np.diff(w0)) > 1e-3:
+                _zeroth(Qp[0], q0, stats, what + ': Q')
 
 
 def prop_eig(case, stats):
     A = case['A']
     D, P, n, _ = A.shape
-    X = _live(case)
-    out = R.guard_declared(algopy.eig, X, declared=EIG_DECLARED)
-    R.assert_unchanged(X, A, 'eig')
-    lam, Q = _utpm(out[0], 'lambda'), _utpm(out[1], 'Q')
-    _shape(lam, (D, P, n), 'lambda')
-    _shape(Q, (D, P, n, n), 'Q')
-    for p in range(P):
-        lp, Qp, Ap = lam[:, p], Q[:, p], A[:, p].astype(complex)
-        Lp = R.sdiag(lp.astype(complex))
-        Qc = Qp.astype(complex)
-        R.eq_check(R.smul(Ap, Qc), R.smul(Qc, Lp), R.term_scale(R.smul_abs(Ap, Qc), R.smul_abs(Qc, Lp)), TOL, stats,
-                   'eig p=%d: A Q = Q diag(lambda)' % p)
-        sv = np.linalg.svd(Qc[0], compute_uv=False)
-        if not (sv[-1] > 1e-6 * sv[0]):
-            raise Violation('eig p=%d: Q_0 is singular (singular values %r)' % (p, sv.tolist()))
+    ret, bufs = _call(case, algopy.eig, UTPM.eig, [(D, P, n), (D, P, n, n)], stats, dtype=complex, declared=EIG_DECLARED)
+    for tag, (lam, Q) in _result_sets(ret, bufs, ('lambda', 'Q')):
+        _shape(lam, (D, P, n), 'lambda' + tag)
+        _shape(Q, (D, P, n, n), 'Q' + tag)
+        for p in range(P):
+            what = 'eig p=%d%s' % (p, tag)
+            lp, Qp, Ap = lam[:, p], Q[:, p], A[:, p].astype(complex)
+            Lp = R.sdiag(lp.astype(complex))
+            Qc = Qp.astype(complex)
+            R.eq_check(R.smul(Ap, Qc), R.smul(Qc, Lp), R.term_scale(R.smul_abs(Ap, Qc), R.smul_abs(Qc, Lp)), TOL, stats,
+                       what + ': A Q = Q diag(lambda)')
+            sv = np.linalg.svd(Qc[0], compute_uv=False)
+            if not (sv[-1] > 1e-6 * sv[0]):
+                raise Violation('%s: Q_0 is singular (singular values %r)' % (what, sv.tolist()))
 
 
 def prop_svd(case, stats):
     A = case['A']
     D, P, M, N = A.shape
     K = min(M, N)
-    X = _live(case)
-    out = guard(algopy.svd, X)
-    R.assert_unchanged(X, A, 'svd')
-    U, s, V = _utpm(out[0], 'U'), _utpm(out[1], 's'), _utpm(out[2], 'V')
-    _shape(U, (D, P, M, M), 'U')
-    _shape(s, (D, P, K), 's')
-    _shape(V, (D, P, N, N), 'V')
-    for p in range(P):
-        Up, sp, Vp, Ap = U[:, p], s[:, p], V[:, p], A[:, p]
-        S = np.zeros((D, M, N))
-        S[:, :K, :K] = R.sdiag(sp)
-        US = R.smul(Up, S)
-        USa = R.smul_abs(Up, S)
-        R.eq_check(R.smul(US, R.sT(Vp)), Ap, R.term_scale(R.smul_abs(USa, R.sT(Vp)), Ap), TOL, stats, 'svd p=%d: U diag(s) V^T = A' % p)
-        _orth(Up, stats, 'svd p=%d: U^T U = I' % p, _orth_tol(case))
-        _orth(Vp, stats, 'svd p=%d: V^T V = I' % p, _orth_tol(case))
-        s0 = sp[0]
-        if np.any(s0 < 0) or np.any(np.diff(s0) > TOL0 * max(1.0, float(s0.max()))):
-            raise Violation('svd p=%d: s_0 not descending and non-negative: %r' % (p, s0.tolist()))
-        # implied by the predicates above (orthogonal factors, ordered non-negative diagonal): s_0 are THE singular values
-        sv = np.linalg.svd(Ap[0], compute_uv=False)
-        if np.max(np.abs(s0 - sv)) > 1e-10 * max(1.0, float(sv.max())):
-            raise Violation('svd p=%d: s_0 = %r, singular values of A_0 are %r' % (p, s0.tolist(), sv.tolist()))
+    ret, bufs = _call(case, algopy.svd, UTPM.svd, [(D, P, M, M), (D, P, K), (D, P, N, N)], stats)
+    for tag, (U, s, V) in _result_sets(ret, bufs, ('U', 's', 'V')):
+        _shape(U, (D, P, M, M), 'U' + tag)
+        _shape(s, (D, P, K), 's' + tag)
+        _shape(V, (D, P, N, N), 'V' + tag)
+        for p in range(P):
+            what = 'svd p=%d%s' % (p, tag)
+            Up, sp, Vp, Ap = U[:, p], s[:, p], V[:, p], A[:, p]
+            S = np.zeros((D, M, N))
+            S[:, :K, :K] = R.sdiag(sp)
+            US = R.smul(Up, S)
+            USa = R.smul_abs(Up, S)
+            R.eq_check(R.smul(US, R.sT(Vp)), Ap, R.term_scale(R.smul_abs(USa, R.sT(Vp)), Ap), TOL, stats, what + ': U diag(s) V^T = A')
+            _orth(Up, stats, what + ': U^T U = I', _orth_tol(case))
+            _orth(Vp, stats, what + ': V^T V = I', _orth_tol(case))
+            s0 = sp[0]
+            if np.any(s0 < 0) or np.any(np.diff(s0) > TOL0 * max(1.0, float(s0.max()))):
+                raise Violation('%s: s_0 not descending and non-negative: %r' % (what, s0.tolist()))
+            # implied by the predicates above (orthogonal factors, ordered non-negative diagonal): s_0 are THE singular values
+            sv = np.linalg.svd(Ap[0], compute_uv=False)
+            if np.max(np.abs(s0 - sv)) > 1e-10 * max(1.0, float(sv.max())):
+                raise Violation('%s: s_0 = %r, singular values of A_0 are %r' % (what, s0.tolist(), sv.tolist()))
 
 
 # ---------------------------------------------------------------------------
@@ -585,6 +682,13 @@ def _classes(case):
         c.append('distinct-bases')
     if case.get('lay') == 'T':
         c.append('layout=transposed-view operand')
+    if case.get('out'):
+        c.append('out=' + case['out'])
+        c.append('out=%s,op=%s' % (case['out'], case['op']))
+    if np.iscomplexobj(A):
+        c.append('complex-input')
+        if 'variant' in case:
+            c.append('complex-input=' + case['variant'])
     if case['op'] in ('lu', 'lu2', 'lu_factor'):
         pv = []
         for p in range(P):
@@ -632,5 +736,6 @@ def buckets(tier):
         add('svd:near-degenerate:' + sc, (lambda sc=sc: svd_near_cases(sc, tier)), prop_svd, 60, 500, 2, 8.0)
     add('eig:real', (lambda: eig_cases('real', tier)), prop_eig, 150, 1500, 1, 1.0)
     add('eig:complex-pairs', (lambda: eig_cases('complex', tier)), prop_eig, 150, 1500, 1, 1.0)
+    add('eig:complex-input', (lambda: eig_complex_cases(tier)), prop_eig, 200, 2000, 1, 1.0)
     add('eig:D>2', (lambda: eig_cases('real', tier, Dmax=6, Dmin=3)), prop_eig, 20, 100, 1, 1.0)
     return bl
